@@ -46,12 +46,6 @@ under sys/external-keys/configs/<config name>/keys/<key name>.`,
 }
 
 func (b *backend) pathRotateWrite(ctx context.Context, req *logical.Request, d *framework.FieldData) (*logical.Response, error) {
-	txRollback, err := logical.StartTxStorage(ctx, req)
-	if err != nil {
-		return nil, err
-	}
-	defer txRollback()
-
 	name := d.Get("name").(string)
 
 	// Get the policy
@@ -66,6 +60,16 @@ func (b *backend) pathRotateWrite(ctx context.Context, req *logical.Request, d *
 		return logical.ErrorResponse("key not found"), logical.ErrInvalidRequest
 	}
 	defer p.Unlock()
+
+	// The storage transaction starts only now, under the lock of the key: a
+	// transaction begun before the lock was granted could predate the commit
+	// of the request that held it, and would then fail at commit after the
+	// cached key had already been changed in memory.
+	txRollback, err := logical.StartTxStorage(ctx, req)
+	if err != nil {
+		return nil, err
+	}
+	defer txRollback()
 
 	externalKeyRef := d.Get("external_key_ref").(string)
 	if p.Type == keysutil.KeyType_ExternalKey {
